@@ -14,7 +14,6 @@ from multiprocessing.connection import wait
 
 def _worker(conn, modname: str) -> None:
     try:
-        sys.setrecursionlimit(10000)
         devnull = open(os.devnull, "w")
         sys.stdout = devnull           # a816 prints diagnostics; keep check output clean
         sys.stderr = devnull
